@@ -660,9 +660,9 @@ func (g *adaptive) violation() string {
 		cat(one(psref.TI(-1), psref.TX("array"))),
 		cat(one(psref.TI(-1), psref.TX("string"))),
 		cat(one(psref.TI(-1), psref.TX("dict"))),
-		cat(one(psref.TI(65537), psref.TX("array"))),
-		cat(one(psref.TI(65537), psref.TX("string"))),
-		cat(one(psref.TI(65537), psref.TX("dict"))),
+		cat(one(psref.TI(1<<31), psref.TX("array"))),
+		cat(one(psref.TI(1<<32), psref.TX("string"))),
+		cat(one(psref.TI(1<<62), psref.TX("dict"))),
 		cat(one(psref.TI(-1), psref.TP(), psref.TX("repeat"))),
 		cat(one(psref.TI(-1), psref.TX("copy"))),
 		cat(one(psref.TI(-1), psref.TX("index"))),
